@@ -111,6 +111,19 @@ func genNodeWorld(rt *rapid.T) *nodeWorld {
 		setFeatures(s, feats)
 	}
 	w.raiseCeil = uniformN(rt, "raiseCeiling", 3) == 0
+	// The harness sets the output addresses of genesis nodes with an edit-stake block after its 3 warm-up blocks
+	// (genesis records are stored in the legacy form). That needs NCUST to be active at height 4, so it is used only
+	// in half of the non-staggered worlds (with separate output keys); otherwise the genesis records stay custodial
+	// (nil output) and the check runs the third warm-up block itself.
+	if !w.staggered && uniformN(rt, "harnessOutputs", 2) == 0 {
+		for i := range s.Nodes {
+			if uniformN(rt, "sepOut", 3) > 0 {
+				s.Nodes[i].Output = w.outs[i%len(w.outs)]
+			}
+		}
+	} else {
+		s.Warmup = 2
+	}
 	return w
 }
 
@@ -214,7 +227,11 @@ func (m *c23) genNodeEdit(rt *rapid.T, op crypto.PrivateKey, pre nodesTypes.Vali
 	}
 	// output address
 	opAddr := chain.Addr(op)
-	switch pick(rt, "output", 5, 3, 1, 1) {
+	outW := []int{5, 3, 1, 1}
+	if pre.OutputAddress != nil && !pre.OutputAddress.Equals(opAddr) {
+		outW = []int{4, 5, 1, 1} // a separate current output exists: propose new ones more often
+	}
+	switch pick(rt, "output", outW...) {
 	case 0:
 		e.output = pre.OutputAddress
 		if e.output == nil { // the record has none yet: name the operator or a separate key (first-set case)
@@ -254,12 +271,27 @@ func (m *c23) genNodeEdit(rt *rapid.T, op crypto.PrivateKey, pre nodesTypes.Vali
 			e.delegs = map[string]uint32{"nothex": 5}
 		}
 	}
+	// focus: in 40% of the edits exactly one field group differs from the stored record
+	sameOut := pre.OutputAddress
+	if sameOut == nil {
+		sameOut = opAddr
+	}
+	switch pick(rt, "focus", 6, 1, 1, 1, 1) {
+	case 1: // amount only
+		e.chains, e.url, e.output, e.delegs, e.delegsValid = append([]string{}, pre.Chains...), pre.ServiceURL, sameOut, copyDelegs(pre.RewardDelegators), true
+	case 2: // output address only
+		e.value, e.chains, e.url, e.delegs, e.delegsValid = cur, append([]string{}, pre.Chains...), pre.ServiceURL, copyDelegs(pre.RewardDelegators), true
+	case 3: // delegators only
+		e.value, e.chains, e.url, e.output = cur, append([]string{}, pre.Chains...), pre.ServiceURL, sameOut
+	case 4: // chains / URL only
+		e.value, e.output, e.delegs, e.delegsValid = cur, sameOut, copyDelegs(pre.RewardDelegators), true
+	}
 	// signer
 	curOut := m.keyOf(pre.OutputAddress)
 	newOut := m.keyOf(e.output)
 	wts := []int{5, 0, 0, 1}
 	if curOut != nil && !pre.OutputAddress.Equals(opAddr) {
-		wts[1] = 5
+		wts[1] = 6
 	}
 	if newOut != nil && !e.output.Equals(opAddr) && !e.output.Equals(pre.OutputAddress) {
 		wts[2] = 3
@@ -354,10 +386,14 @@ func (m *c23) classifyNodeEdit(e nodeEdit, pre nodesTypes.Validator, waiting boo
 	signerOK := sAddr.Equals(opAddr) || (ncust && (sAddr.Equals(pre.OutputAddress) || sAddr.Equals(e.output)))
 	funded := m.n.Balance(sAddr).Int64() >= fee+2*unit
 	shapeOK := e.delegsValid && int64(len(e.chains)) <= m.w.spec.NodeParams.MaximumChains && (e.legacy || e.output != nil || !ncust)
+	valid := eraOK && signerOK && funded && shapeOK && h != m.w.spec.Features[codec.NonCustodialUpdateKey]
 	for _, f := range forbidden {
 		c.Label("attempt:" + f)
+		if valid {
+			c.AddExtra("forbidden_in_valid_tx:"+f, 1)
+		}
 	}
-	if len(forbidden) > 0 && eraOK && signerOK && funded && shapeOK && h != m.w.spec.Features[codec.NonCustodialUpdateKey] {
+	if len(forbidden) > 0 && valid {
 		c.Label("forbidden-attempt-in-valid-tx")
 		c.NonTrivial()
 	}
@@ -523,11 +559,11 @@ func TestC23(t *testing.T) {
 			"plus begin-unstake, unjail, app edit-stakes (amount below/equal/above, chains, own key or stranger). Oracle: raw validator / application records before and after "+
 			"each edit's DeliverTx against the immutability rules. non-trivial = history containing an edit that attempts a forbidden change (lower stake, unauthorised output "+
 			"or delegator change, edit of a waiting or unstaking node) inside an otherwise valid tx (right message type for the height, signer among operator / current / proposed output, funded, well-formed)",
-		map[string]float64{"state:staked": 0.9, "state:jailed": 0.35, "state:waiting": 0.5, "state:unstaking": 0.3,
+		map[string]float64{"state:staked": 0.9, "state:jailed": 0.3, "state:waiting": 0.5, "state:unstaking": 0.3,
 			"signer:operator": 0.9, "signer:current-output": 0.5, "signer:proposed-output": 0.4, "signer:stranger": 0.6,
-			"era:before-NCUST": 0.25, "era:before-OEDIT": 0.15, "era:before-RewardDelegators": 0.15, "era:all-active": 0.6,
-			"attempt:lower-stake": 0.8, "attempt:output-change-unauthorized": 0.6, "attempt:delegators-unauthorized": 0.6, "attempt:edit-waiting": 0.5,
-			"ok:output-changed-by-current-output": 0.25, "ok:delegators-changed-by-operator": 0.3, "ok:first-set-output": 0.5, "ok:app-edit-accepted": 0.5,
+			"era:before-NCUST": 0.25, "era:before-OEDIT": 0.15, "era:before-RewardDelegators": 0.1, "era:all-active": 0.6,
+			"attempt:lower-stake": 0.8, "attempt:output-change-unauthorized": 0.4, "attempt:delegators-unauthorized": 0.6, "attempt:edit-waiting": 0.5,
+			"ok:output-changed-by-current-output": 0.15, "ok:delegators-changed-by-operator": 0.25, "ok:first-set-output": 0.5, "ok:app-edit-accepted": 0.5,
 			"ok:edit-accepted-while-jailed": 0.1, "forbidden-attempt-in-valid-tx": 0.9},
 		func(rt *rapid.T, c *harness.Case) {
 			w := genNodeWorld(rt)
@@ -536,6 +572,9 @@ func TestC23(t *testing.T) {
 				c.Label("features-staggered")
 			}
 			n := chain.NewNode(&w.spec)
+			if w.spec.Warmup == 2 {
+				n.RunBlock(chain.Block{DT: time.Second})
+			}
 			m := &c23{c: c, w: w, n: n}
 			nb := 14 + uniformN(rt, "blocks", 11)
 			operators := append(append([]crypto.PrivateKey{}, w.ops...), w.spares...)
